@@ -39,9 +39,9 @@ def compare(name, blk, ss, shocks, T, out, ss_initial=None, Dbeg0=None):
         o = blk.M_outputs.inv @ O
         if O in imp.toplevel:
             ref = np.array([np.vdot(Dp[t], dated[t][o]) for t in range(T)]) - ss[O]
-            if len(imp[O]) != T or np.abs(imp[O] - ref).max() > 1e-9 * max(1, np.abs(ref).max()):
+            if len(imp[O]) != T or np.abs(imp[O] - ref).max() > 1e-8 * max(1, abs(ss[O]), np.abs(ref).max()):      # sums of ~1e3 products of masses and grid values up to ~1e2
                 C.push(out, dict(what=f'aggregate {O} is not the date-t distribution-weighted sum of the date-t outcome', input=dict(inp, output=O), signature=dict(op='aggregate', block=name)))
-    if any(not np.array_equal(ss.toplevel[k], v) for k, v in ss_snapshot.items()) or any(not np.array_equal(ss.internals[blk.name][k], v) for k, v in int_snapshot.items()):
+    if any(not np.array_equal(ss.toplevel[k], v, equal_nan=True) for k, v in ss_snapshot.items()) or any(not np.array_equal(ss.internals[blk.name][k], v, equal_nan=True) for k, v in int_snapshot.items()):
         C.push(out, dict(what='impulse_nonlinear modified the steady state passed in', input=inp, signature=dict(op='ss-mutated', block=name)))
 
 
@@ -62,6 +62,16 @@ def check(rng, deep):
         for sh in shock_list:
             n += 1
             compare(name, blk, ss, sh, T, out)
+        if deep:       # calibrations in a box around the fixture, random shock paths
+            for _ in range(3):
+                c2 = H.perturb(calib, rng)
+                try:
+                    ss2 = blk.steady_state(c2)
+                except ValueError:
+                    continue          # no convergence at this calibration: a documented raise
+                sh2 = {k: v * rng.uniform(0.5, 1.5) * np.sign(rng.uniform(-1, 1)) for k, v in shock_list[0].items()}
+                n += 1
+                compare(name, blk, ss2, sh2, T, out)
     # distinct initial steady state: only the initial distribution differs
     ss0 = m.sim.steady_state(dict(m.SIM_CALIB, r=0.03))
     n += 1
